@@ -662,6 +662,16 @@ func (gen *Generator) GenerateCallBySymbol(sym *SexpSymbol, args []Sexp, orig Se
 	case "macexpand":
 		return gen.GenerateMacexpand(args)
 	case "syntaxQuote":
+		// a splice needs a list or an array around it to splice into: a
+		// template that is itself a splice would leave one operand per
+		// element (or none) where a form leaves exactly one.
+		if len(args) == 1 && IsList(args[0]) {
+			if body, _ := ListToArray(args[0]); len(body) == 2 {
+				if head, isSym := body[0].(*SexpSymbol); isSym && head.name == "unquote-splicing" {
+					return fmt.Errorf("unquote-splicing (~@) directly under a syntax-quote: there is nothing to splice into")
+				}
+			}
+		}
 		return gen.GenerateSyntaxQuote(args)
 	case "include":
 		return gen.GenerateInclude(args)
